@@ -153,6 +153,48 @@ def strat_random_seq(tier):
         'seed': st.integers(0, 2 ** 32 - 1), 'high': st.just(h), 'seq': seqs(h)}))
 
 
+# Master seeds whose raw one-at-a-time stream (default high = 2**31) repeats a value within its first 2500 draws:
+# (seed, draw position of the first occurrence, draw position of the repeat).  Found by scanning seeds 0..40000 with
+#   v = RandomState(seed).randint(2**31, size=2500, dtype='uint32'); positions of the first value that occurs twice.
+# About one master seed in 700 has such an early natural collision; a uniform draw of seeds practically never hits one, and
+# only for them do "the i-th raw draw" and "the i-th DISTINCT value" differ under the default range.
+NATURAL_COLLISIONS = [(731, 489, 1047), (1096, 963, 1305), (2034, 359, 1336), (2301, 678, 1413), (3130, 148, 2276), (3575, 455, 1406),
+                      (4447, 55, 804), (4594, 607, 1368), (5036, 70, 1328), (5688, 228, 674), (6127, 479, 698), (7582, 332, 1008),
+                      (13436, 849, 1195), (20036, 152, 205), (22990, 172, 551), (27699, 1006, 1076)]
+
+
+def strat_natural(tier):
+    return st.fixed_dictionaries({
+        'which': st.integers(0, len(NATURAL_COLLISIONS) - 1),
+        'offsets': st.lists(st.integers(-3, 40), min_size=1, max_size=5),
+        'use_cache': st.booleans(), 'order': st.sampled_from(['forward', 'reverse']),
+    })
+
+
+def run_natural(case):
+    """Indices around a natural collision of the default-range stream: equal to the reference, distinct, cache-independent."""
+    seed, p1, p2 = NATURAL_COLLISIONS[case['which']]
+    high = 2 ** 31
+    idxs = sorted(set([p1] + [max(0, p2 + o) for o in case['offsets']]))
+    table, ndups = sub_seed_table(seed, high, max(idxs) + 1)
+    if case['order'] == 'reverse':
+        idxs.reverse()
+    cache = {} if case['use_cache'] else None
+    got = {}
+    for i in idxs:
+        with must_not_raise(P, 'get_sub_seed(%d,%d)' % (seed, i)):
+            got[i] = int(_call(seed, i, high, cache))
+        if got[i] != table[i]:
+            raise Violation('C15:differs-from-reference', 'seed=%d (its raw stream repeats draw %d at draw %d) default range, index=%d %s: got=%d reference=%d'
+                            % (seed, p1, p2, i, 'cached' if case['use_cache'] else 'uncached', got[i], table[i]))
+    if len(set(got.values())) != len(got):
+        raise Violation('C15:duplicate-sub-seed', 'seed=%d: two indices share a sub seed: %r' % (seed, got))
+    labels = ['cache' if case['use_cache'] else 'nocache']
+    if ndups:
+        labels.append('natural-duplicate-draw')
+    return CaseResult(labels, True if (ndups and max(idxs) >= p2) else None)
+
+
 def strat_callsites(tier):
     seeds = st.one_of(st.sampled_from([0, 1, 5, 123456]), st.integers(0, 2 ** 32 - 1))
     idx = st.one_of(st.integers(0, 6), st.integers(0, 400), st.integers(0, 400), st.integers(1000, 3000))
@@ -231,12 +273,13 @@ CHECK = Check(
           'least one duplicate draw before the largest index was served (distinct cases counted by hash). call-sites: '
           'histories of (generator seed, index) requests through prepare_seed (external operations) and through '
           'RandomStateLoader on used vs fresh contexts; non-trivial = >=3 calls interleaving >=2 seeds with a '
-          'non-increasing index.'),
+          'non-increasing index. natural-collisions: 16 master seeds whose default-range stream repeats a value within 2500 draws, indices around the repeat, cached or not.'),
     parts=[
         Part('enum-sequences', run_sequence, enumerate_cases=enum_sequences, shards={'quick': 16, 'thorough': 16}),
         Part('random-sequences', run_sequence, strategy=strat_random_seq, examples={'quick': 1200, 'thorough': 40000}),
         Part('distinct', run_distinct, strategy=strat_distinct, examples={'quick': 600, 'thorough': 16000}),
         Part('call-sites', run_callsites, strategy=strat_callsites, examples={'quick': 600, 'thorough': 16000}),
+        Part('natural-collisions', run_natural, strategy=strat_natural, examples={'quick': 120, 'thorough': 2400}),
     ],
     assumptions=['legacy numpy RandomState.randint(high, dtype=uint32) yields the same stream whether drawn one at a '
                  'time or in blocks (asserted by the reference comparison itself: elfi draws in blocks, the reference '
